@@ -61,7 +61,7 @@ func (g *GTPv2) DecodeFromBytes(data []byte, df gopacket.DecodeFeedback) error {
 		g.TEID = binary.BigEndian.Uint32(data[4:8])
 	}
 
-	if len(data) < int(cIndex)+3 {
+	if len(data) < int(cIndex)+4 {
 		return fmt.Errorf("GTP packet too small for SequenceNumber: %d bytes", len(data))
 	}
 	g.SequenceNumber = uint32(data[cIndex])<<16 | uint32(data[cIndex+1])<<8 | uint32(data[cIndex+2])
@@ -71,8 +71,11 @@ func (g *GTPv2) DecodeFromBytes(data []byte, df gopacket.DecodeFeedback) error {
 
 	for cIndex < uint16(dLen) {
 		ieType := data[cIndex]
+		if int(cIndex)+4 > int(uint16(dLen)) {
+			return fmt.Errorf("IE %d header exceeds packet length", ieType)
+		}
 		ieLength := binary.BigEndian.Uint16(data[cIndex+1 : cIndex+3])
-		if cIndex+4+uint16(ieLength) > uint16(dLen) {
+		if int(cIndex)+4+int(ieLength) > int(uint16(dLen)) {
 			return fmt.Errorf("IE %d exceeds packet length", ieType)
 		}
 		ieContent := data[cIndex+4 : cIndex+4+uint16(ieLength)]
